@@ -348,6 +348,10 @@ var boundaryTemplates = []struct {
 	// the entries visited are the entries the map has when the loop starts: the body runs once per such entry, whatever it inserts
 	{"for round = 0; round < 10; round++ {\nm = {\"a\": 1, \"b\": 2, \"c\": 3, \"d\": 4}\nn = 0\nfor k, v in m {\nn++\nm[k + \"x\"] = v\nm[k + \"y\"] = v\n}\nprobe([n, len(m)])\n}",
 		[]string{"(l (i 4) (i 12))", "(l (i 4) (i 12))", "(l (i 4) (i 12))", "(l (i 4) (i 12))", "(l (i 4) (i 12))", "(l (i 4) (i 12))", "(l (i 4) (i 12))", "(l (i 4) (i 12))", "(l (i 4) (i 12))", "(l (i 4) (i 12))"}, ""},
+	// a map loop inside the body of another map loop: each visits every entry of its own map once
+	{"outer = {\"a\": 1, \"b\": 2, \"c\": 3, \"d\": 4}\ninner = {\"x\": 1, \"y\": 2, \"z\": 3}\nno = 0\nnp = 0\nfor k, v in outer {\nno++\nfor k2, v2 in inner {\nnp++\n}\n}\nprobe([no, np])", []string{"(l (i 4) (i 12))"}, ""},
+	{"grid = {\"r1\": {\"a\": 1, \"b\": 2}, \"r2\": {\"a\": 3, \"b\": 4}, \"r3\": {\"a\": 5, \"b\": 6}}\nrows = 0\ncells = 0\nsum = 0\nfor rk, row in grid {\nrows++\nfor ck, cell in row {\ncells++\nsum += cell\n}\n}\nprobe([rows, cells, sum])", []string{"(l (i 3) (i 6) (i 21))"}, ""},
+	{"m = {\"a\": 1, \"b\": 2, \"c\": 3}\nn = 0\nfor k in m {\nfor k2 in m {\nfor k3 in m {\nn++\n}\n}\n}\nprobe(n)", []string{"(i 27)"}, ""},
 	{"idx = {\"k1\": \"v1\", \"k2\": \"v2\", \"k3\": \"v3\"}\nn = 0\nfor k in idx {\nn++\nidx[idx[k]] = k\n}\nprobe([n, len(idx)])", []string{"(l (i 3) (i 6))"}, ""},
 }
 
